@@ -85,7 +85,7 @@ class watchdog:
 class Net:
     """ the simulated network: which instances are up, which pairs are cut """
     def __init__(self):
-        self.instances = {}; self.down = set(); self.cut = set(); self.sent_to_isolated = []
+        self.instances = {}; self.down = set(); self.cut = set(); self.sent_to_isolated = []; self.rpc_exceptions = []
 
     def reachable(self, a, b):
         return b not in self.down and a not in self.down and frozenset((a, b)) not in self.cut
